@@ -2,7 +2,7 @@
  * teardown at thread exit) and is an op list over a heap graph of instrumented objects.  Used by C01
  * (reachability), C06 (finalised exactly once / everything released) and C17 (registry exactness).
  *
- * Ops (one per line): retype m | new h kind cls [target|residue] | alloc h kind cls | copy h src | store s k t | unstore s k |
+ * Ops (one per line): retype m | new h kind cls [target|residue|k base depth (noded: its destructor allocates k objects with ids base..)] | alloc h kind cls | copy h src | store s k t | unstore s k |
  * setat s i t | pushat s i t | popat s i | clear s | stk i h | unstk i | tls k h | untls k | del h | dt h | collect | churn base n |
  * fill base max | many new base n cls | many del base n step | chain h base n how | stop | start | fin | alive h... | dump h |
  * mem h | gcchk | stat | joinlate n (first line only).
@@ -20,14 +20,15 @@
 #define DEADCAN 0xDEADDEADDEADDEADULL
 
 enum { K_NODE, K_NODEA, K_REF, K_BOX, K_ARR, K_LST, K_TAB, K_TRE, K_TUP, K_TABR, K_ARRB,
-       K_NODEB, K_NODEO, K_NODEZ, K_TRER, K_THR, K_LSTB, K_TABB, K_TREB, K_NODEM };
+       K_NODEB, K_NODEO, K_NODEZ, K_TRER, K_THR, K_LSTB, K_TABB, K_TREB, K_NODEM, K_NODED };
 enum { C_MANAGED, C_ROOT, C_RAW };
 static const char* kind_names[] = { "node", "nodea", "ref", "box", "arr", "lst", "tab", "tre", "tup", "tabr", "arrb",
-                                    "nodeb", "nodeo", "nodez", "trer", "thr", "lstb", "tabb", "treb", "nodem", NULL };
+                                    "nodeb", "nodeo", "nodez", "trer", "thr", "lstb", "tabb", "treb", "nodem", "noded", NULL };
 /* instrumented objects (destructor observed): plain 48-byte struct, the same from the arena, a 1 MiB struct whose last
  * two words are pointer fields, a 52-byte struct (size not a multiple of the word size), a type of size 0, a struct that
- * keeps its 4 pointer fields in a malloc'd side block and implements Mark to report them (the documented extension point) */
-static bool is_node(int kind) { return kind is K_NODE or kind is K_NODEA or kind is K_NODEB or kind is K_NODEO or kind is K_NODEZ or kind is K_NODEM; }
+ * keeps its 4 pointer fields in a malloc'd side block and implements Mark to report them (the documented extension point),
+ * a struct whose destructor allocates 0..4 managed, ledger-tracked Nodes (whenever and wherever it is finalised) */
+static bool is_node(int kind) { return kind is K_NODE or kind is K_NODEA or kind is K_NODEB or kind is K_NODEO or kind is K_NODEZ or kind is K_NODEM or kind is K_NODED; }
 static bool is_ptrobj(int kind) { return kind is K_REF or kind is K_BOX; }
 
 struct Node { int64_t id; uint64_t canary; var out[4]; };
@@ -35,10 +36,12 @@ struct Node { int64_t id; uint64_t canary; var out[4]; };
 struct NodeB { int64_t id; uint64_t canary; var out[2]; char pad[BIGPAD]; var tail[2]; };
 #define NODEO_SIZE 52    /* id, canary, out[4], 4 more bytes */
 struct NodeM { int64_t id; uint64_t canary; var* side; };
+struct NodeD { int64_t id; uint64_t canary; var out[4]; int64_t nborn; int64_t born_base; int64_t chain_base; int64_t depth; };
 
 struct Led {
-  var ptr; int kind, cls; int dtor; int released; bool used; bool explicit_del; bool unregistered; long seq;
+  var ptr; int kind, cls; int dtor; int released; bool used; bool explicit_del; bool unregistered; bool born_td; long seq;
 };
+static volatile int in_teardown = 0;      /* the case's op list is finished: what runs now is the collector's teardown */
 static long alloc_seq = 0;
 static struct Led led[MAXOBJ];
 static int led_hi = 0;
@@ -213,6 +216,8 @@ static var P(int h) { if (not led[h].used) { harness_bug("unused handle"); } ret
  * only then becomes a container of the wanted types: 1 = assign from an empty container of those types, 2 = assign from
  * an empty Tuple (Array / List: element type becomes Ref), 3 = (managed only) it is the copy of an empty container */
 static int retype_mode = 0;
+static var NodeD;                                   /* defined after mk(): its destructor calls mk() */
+static int64_t noded_k = 0, noded_base = 0, noded_chain = 0, noded_depth = 1;      /* constructor arguments of the next noded */
 
 static var mk(int h, int kind, int cls, var a0, var a1) {
   var type = NULL; var args = NULL;
@@ -221,7 +226,9 @@ static var mk(int h, int kind, int cls, var a0, var a1) {
   /* new(Ref|Box, x) dereferences x when x is itself a pointer object; wrap it so the new object points at x */
   var t_id = tuple($I(h)); var t_a0 = tuple($R(a0)); var t_ref = tuple(Ref); var t_intref = tuple(Int, Ref);
   var t_refref = tuple(Ref, Ref); var t_none = tuple(); var t_box = tuple(Box); var t_intbox = tuple(Int, Box);
+  var t_d = tuple($I(h), $I(noded_k), $I(noded_base), $I(noded_chain), $I(noded_depth));
   switch (kind) {
+    case K_NODED: type = NodeD; args = t_d; break;
     case K_NODEB: type = NodeB; args = t_id; break;
     case K_NODEO: type = NodeO; args = t_id; break;
     case K_NODEZ: type = NodeZ; args = t_id; break;
@@ -263,6 +270,35 @@ static var mk(int h, int kind, int cls, var a0, var a1) {
   ledger_add(h, r, kind, cls);
   return r;
 }
+
+/* ---- NodeD: a Node whose destructor allocates nborn managed objects with ledger ids born_base.. ----------------------
+ * depth = number of allocating generations left: with depth > 1 the first child is again a NodeD (one child, depth - 1,
+ * its child's id is chain_base, the next generation's chain_base + 1, ...), so chains are finite (at most 3 generations) */
+static void NodeD_New(var self, var args) {
+  struct NodeD* n = self; Node_New(self, args);
+  n->nborn = c_int(get(args, $I(1))); n->born_base = c_int(get(args, $I(2)));
+  n->chain_base = c_int(get(args, $I(3))); n->depth = c_int(get(args, $I(4)));
+}
+static long born_total = 0;
+static void NodeD_Del(var self) {
+  struct NodeD* n = self; int64_t k = n->nborn, base = n->born_base, chain = n->chain_base, depth = n->depth;
+  Node_Del(self);
+  if (led[n->id].dtor isnt 1) { return; }          /* a second finalisation (already reported) must not reuse the ids */
+  for (int64_t i = 0; i < k; i++) {
+    size_t ns, ni, mi, fn; uintptr_t mn, mx; bool run;
+    Cello_Verif_GC_Stat(current(GC), &ns, &ni, &mi, &mn, &mx, &fn, &run);
+    if (i is 0 and depth > 1 and depth <= 3) {
+      noded_k = 1; noded_base = chain; noded_chain = chain + 1; noded_depth = depth - 1;
+      mk((int)(base + i), K_NODED, C_MANAGED, NULL, NULL);
+    } else {
+      mk((int)(base + i), K_NODE, C_MANAGED, NULL, NULL);
+    }
+    led[base + i].unregistered = not run;
+    led[base + i].born_td = in_teardown isnt 0;     /* allocated by a destructor that the teardown sweep ran */
+    born_total++;
+  }
+}
+static var NodeD = CelloObject(NodeD, sizeof(struct NodeD), Instance(New, NodeD_New, NodeD_Del));
 
 static unsigned seen_stamp[MAXOBJ]; static unsigned stamp = 0;
 static void registry_check(void) {
@@ -362,6 +398,9 @@ static void do_op(char** w, int n) {
     int h = hnd(w[1]); int kind = kind_of(w[2]); int cls = w[3][0] is 'm' ? C_MANAGED : (w[3][1] is 'o' ? C_ROOT : C_RAW);
     var a0 = NULL;
     if (is_ptrobj(kind)) { a0 = P(hnd(w[4])); }
+    if (kind is K_NODED) {                     /* new h noded cls k base [depth] : children base..base+3, later generations base+4, base+5 */
+      noded_k = n > 4 ? atoll(w[4]) : 0; noded_base = n > 5 ? hnd(w[5]) : 0; noded_depth = n > 6 ? atoll(w[6]) : 1; noded_chain = noded_base + 4;
+    }
     if (kind is K_NODEA) {
       bool last_slot = n > 4 and strcmp(w[4], "last") is 0;
       want_res = (n > 4 and not last_slot) ? atoll(w[4]) : -1;
@@ -390,7 +429,7 @@ static void do_op(char** w, int n) {
     int s = hnd(w[1]); int64_t k = atoll(w[2]); var t = strcmp(w[3], "null") is 0 ? NULL : P(hnd(w[3]));
     char key[32]; snprintf(key, sizeof key, "k%lld", (long long)k);
     switch (led[s].kind) {
-      case K_NODE: case K_NODEA: case K_NODEB: case K_NODEO: case K_NODEM: *field_of(led[s].kind, P(s), k) = t; break;
+      case K_NODE: case K_NODEA: case K_NODEB: case K_NODEO: case K_NODEM: case K_NODED: *field_of(led[s].kind, P(s), k) = t; break;
       case K_REF: ref(P(s), t); break;
       case K_ARR: case K_LST: push(P(s), $R(t)); break;
       case K_ARRB: case K_LSTB: push(P(s), t); break;
@@ -407,7 +446,7 @@ static void do_op(char** w, int n) {
     int s = hnd(w[1]); int64_t k = atoll(w[2]);
     char key[32]; snprintf(key, sizeof key, "k%lld", (long long)k);
     switch (led[s].kind) {
-      case K_NODE: case K_NODEA: case K_NODEB: case K_NODEO: case K_NODEM: *field_of(led[s].kind, P(s), k) = NULL; break;
+      case K_NODE: case K_NODEA: case K_NODEB: case K_NODEO: case K_NODEM: case K_NODED: *field_of(led[s].kind, P(s), k) = NULL; break;
       case K_REF: ref(P(s), NULL); break;
       case K_ARR: case K_LST: case K_TUP: case K_ARRB: case K_LSTB: pop(P(s)); break;
       case K_TAB: case K_TRE: case K_TABB: case K_TREB: rem(P(s), $I(k)); break;
@@ -440,7 +479,7 @@ static void do_op(char** w, int n) {
   else if (OP("collect")) { Cello_Verif_GC_Collect(gc); }
   else if (OP("alloc")) {                /* alloc h kind cls : alloc / alloc_root / alloc_raw without a constructor call */
     int h = hnd(w[1]); int kind = kind_of(w[2]); int cls = w[3][0] is 'm' ? C_MANAGED : (w[3][1] is 'o' ? C_ROOT : C_RAW);
-    if (not is_node(kind) or kind is K_NODEM) { harness_bug("alloc kind"); }
+    if (not is_node(kind) or kind is K_NODEM or kind is K_NODED) { harness_bug("alloc kind"); }
     var type = kind is K_NODE ? Node : kind is K_NODEA ? NodeA : kind is K_NODEB ? NodeB : kind is K_NODEO ? NodeO : NodeZ;
     want_res = -1;
     bool running_now = true;
@@ -486,6 +525,7 @@ static void do_op(char** w, int n) {
     { size_t ns, ni, mi, fn; uintptr_t mn, mx; Cello_Verif_GC_Stat(gc, &ns, &ni, &mi, &mn, &mx, &fn, &running_now); }
     var r = copy(P(src));
     if (is_node(led[src].kind) and led[src].kind isnt K_NODEZ) { struct Node* nd = r; nd->id = h; nd->canary = CANARY ^ (uint64_t)h; }
+    if (led[src].kind is K_NODED) { ((struct NodeD*)r)->nborn = 0; }     /* the ids of the source's offspring are not reused */
     ledger_add(h, r, led[src].kind, C_MANAGED);
     led[h].unregistered = not running_now;
   }
@@ -573,6 +613,7 @@ static var worker(var args) {
   }
   for (int i = 0; i < 16; i++) { roots[i] = NULL; }
   stkroots = NULL;
+  in_teardown = 1;
   worker_done = 1;
   return NULL;
 }
@@ -583,15 +624,16 @@ static bool main_mode = false; static long main_managed = 0;
 static void __attribute__((destructor)) main_mode_report(void) {
   if (not main_mode) { return; }
   /* runs after the atexit handlers, i.e. after Cello_Exit tore the main collector down */
-  long bad_m = 0, bad_r = 0, n_m = 0, first_bad = -1;
+  long bad_m = 0, bad_r = 0, n_m = 0, first_bad = -1, born_td = 0, born_td_left = 0;
   for (int i = 0; i <= led_hi; i++) {
     if (not led[i].used or not is_node(led[i].kind)) { continue; }
+    if (led[i].born_td) { born_td++; if (led[i].dtor is 0) { born_td_left++; } }
     int want = 1;
     if (led[i].cls isnt C_MANAGED or led[i].unregistered) { want = led[i].explicit_del ? 1 : 0; }
     if (led[i].cls is C_MANAGED) { n_m++; }
     if (led[i].dtor isnt want) { if (led[i].cls is C_MANAGED) { bad_m++; } else { bad_r++; } if (first_bad < 0) { first_bad = i; } }
   }
-  printf("teardown managed=%ld wrong_managed=%ld wrong_rootraw=%ld first=%ld outstanding=na err=[%s]\n", n_m, bad_m, bad_r, first_bad, errmsg);
+  printf("teardown managed=%ld wrong_managed=%ld wrong_rootraw=%ld first=%ld outstanding=na born_td=%ld born_td_left=%ld err=[%s]\n", n_m, bad_m, bad_r, first_bad, born_td, born_td_left, errmsg);
   printf("done\n"); fflush(stdout);
 }
 
@@ -628,7 +670,7 @@ int main(int argc, char** argv) {
     }
     /* run the case */
     memset(led, 0, sizeof(struct Led) * (size_t)(led_hi + 1)); led_hi = 0; nfin = 0; fin_reported = 0; errmsg[0] = 0;
-    case_gen++; retype_mode = 0;
+    case_gen++; retype_mode = 0; in_teardown = 0;
     memset(cellused, 0, sizeof cellused);
     memset(bset, 0, sizeof bset); outstanding = 0;
     out = open_memstream(&outbuf, &outlen);
@@ -650,16 +692,18 @@ int main(int argc, char** argv) {
     fclose(out);
     fputs(outbuf, stdout);
     free(outbuf); outbuf = NULL;
-    long bad_m = 0, bad_r = 0, n_m = 0, first_bad = -1;
+    long bad_m = 0, bad_r = 0, n_m = 0, first_bad = -1, born_td = 0, born_td_left = 0;
     for (int i = 0; i <= led_hi; i++) {
       if (not led[i].used or not is_node(led[i].kind)) { continue; }
+      /* objects allocated by destructors during the teardown sweep are reported separately (each is one block) */
+      if (led[i].born_td) { born_td++; if (led[i].dtor is 0) { born_td_left++; } }
       if (led[i].cls is C_MANAGED and not led[i].unregistered) { n_m++; if (led[i].dtor isnt 1) { bad_m++; if (first_bad < 0) { first_bad = i; } } }
       else if (led[i].cls is C_MANAGED) { int want = led[i].explicit_del ? 1 : 0; if (led[i].dtor isnt want) { bad_m++; if (first_bad < 0) { first_bad = i; } } }
       else { int want = led[i].explicit_del ? 1 : 0; if (led[i].dtor isnt want) { bad_r++; if (first_bad < 0) { first_bad = i; } } }
       if (led[i].kind is K_NODEA and led[i].dtor is 1 and led[i].released isnt 1) { bad_m++; if (first_bad < 0) { first_bad = i; } }
     }
-    printf("teardown managed=%ld wrong_managed=%ld wrong_rootraw=%ld first=%ld outstanding=%ld err=[%s]\n",
-      n_m, bad_m, bad_r, first_bad, outstanding, errmsg);
+    printf("teardown managed=%ld wrong_managed=%ld wrong_rootraw=%ld first=%ld outstanding=%ld born_td=%ld born_td_left=%ld err=[%s]\n",
+      n_m, bad_m, bad_r, first_bad, outstanding, born_td, born_td_left, errmsg);
     printf("done\n"); fflush(stdout);
     for (size_t i = 0; i < nlines; i++) { free(lines[i]); }
     nlines = 0;
